@@ -289,6 +289,7 @@ Section QuotientNoParams.
   Variable idx : nat.
   Variable TP : Z -> terms.
   Variable tabs : list (Z -> terms).
+  Variable Nmax : Z.                         (* levels 0..Nmax are computed *)
 
   Let mins := quotient_min_sizes cs.
   Let maxs := quotient_max_sizes cs.
@@ -305,7 +306,8 @@ Section QuotientNoParams.
   Hypothesis Hvanish : Vanish tabs mins maxs.
   Hypothesis Hnn : Forall (fun tab : Z -> terms => forall m, nonneg (tab m)) tabs.
   Hypothesis HTPkeys : forall m, nokeys (TP m).
-  Hypothesis Hgen : forall m, product_genuine fs tabs (TP m) m.
+  (* the product rule is genuine at the sizes that are read: up to Nmax + _parent_shift *)
+  Hypothesis Hgen : forall m, 0 <= m <= Nmax + psh -> product_genuine fs tabs (TP m) m.
   Hypothesis Hsib : C <> 0.
   Hypothesis Hppm : ppm [] = Ok [].
 
@@ -322,6 +324,14 @@ Section QuotientNoParams.
   Let min_i_nonneg : 0 <= min_i.
   Proof. apply Forall_nth_nonneg. exact Hmins. Qed.
 
+  Let psh_nonneg : 0 <= psh.
+  Proof.
+    rewrite psh_eq. unfold min_i. rewrite <- py_sum_remove_at by lia.
+    assert (G : forall l, Forall (fun m => 0 <= m) l -> 0 <= py_sum l).
+    { induction l as [|x l IHl]; intros H; [unfold py_sum; simpl; lia|]. inversion H; subst. rewrite py_sum_cons. specialize (IHl H3). lia. }
+    apply G. apply Forall_remove_at. exact Hmins.
+  Qed.
+
   Let Hidx_tabs : (idx < length tabs)%nat.
   Proof. rewrite Htabs. exact Hidx. Qed.
 
@@ -329,16 +339,16 @@ Section QuotientNoParams.
   Proof. unfold zlen. lia. Qed.
 
   (* number of objects of the parent = full convolution of the children's numbers *)
-  Let parent_count : forall m,
+  Let parent_count : forall m, 0 <= m <= Nmax + psh ->
     tsum (TP m) = zsum (hprod tabs) (compositions m (zlen tabs) (zeros (zlen tabs)) (nones (zlen tabs))).
   Proof.
-    intros m. rewrite <- (tget_nokeys (TP m) (HTPkeys m)). rewrite (Hgen m []).
+    intros m Hm. rewrite <- (tget_nokeys (TP m) (HTPkeys m)). rewrite (Hgen m Hm []).
     rewrite tget_nokeys by (apply product_table_nokeys; exact Hfs).
     rewrite product_table_tsum. apply zsum_ext. intros t _. apply comp_table_tsum.
   Qed.
 
   Lemma quotient_level own n :
-    0 <= n -> (forall m, nonneg (own m)) ->
+    0 <= n <= Nmax -> (forall m, nonneg (own m)) ->
     (forall m, 0 <= m < n -> tsum (own m) = tsum (tab_i m)) ->
     exists r, quotient_get_terms fs ppm 0 cs idx TP (replace_at idx own tabs) n = Ok r /\
               nokeys r /\ nonneg r /\ tsum r = tsum (tab_i n).
@@ -384,10 +394,10 @@ Section QuotientNoParams.
         - split.
           + unfold zeros. rewrite Hkk, Nat2Z.id, <- Lstar.
             apply (Forall2_zeros_le tstar tstar); [|apply Forall2_le_refl].
-            unfold tstar. apply Forall_replace_at; [exact Hn0|exact Hmins].
+            unfold tstar. apply Forall_replace_at; [lia|exact Hmins].
           + unfold nones. rewrite Hkk, Nat2Z.id, <- Lstar. apply Forall2_bounded_nones. }
       assert (HD : tsum (TP N) - tsum Ea = tsum (tab_i n) * C).
-      { rewrite parent_count, HEa. fold kk. fold ALL. rewrite <- zsum_minus.
+      { rewrite parent_count by (unfold N; lia). rewrite HEa. fold kk. fold ALL. rewrite <- zsum_minus.
         rewrite (zsum_single _ ALL tstar); [| apply compositions_nodup | exact Hstar_in |].
         - destruct (in_bounds mins maxs_a tstar) eqn:Hb.
           + exfalso. pose proof (in_bounds_replace_true idx mins maxs tstar (n - 1) Hb ltac:(lia)) as H.
@@ -476,13 +486,13 @@ Section QuotientNoParams.
     nokeys r /\ nonneg r /\ tsum r = tsum (tab_i (Z.of_nat m)).
 
   Lemma quotient_levels_from : forall todo (cache : list terms) n,
-    n = Z.of_nat (length cache) ->
+    n = Z.of_nat (length cache) -> n + Z.of_nat todo <= Nmax + 1 ->
     (forall m, (m < length cache)%nat -> good_level (nth m cache []) m) ->
     exists tl : list terms, levels_from qstep cache n todo = (tl, None) /\
                length tl = (length cache + todo)%nat /\
                forall m, (m < length tl)%nat -> good_level (nth m tl []) m.
   Proof.
-    induction todo as [|todo IH]; intros cache n Hn Hgood.
+    induction todo as [|todo IH]; intros cache n Hn Hmax Hgood.
     - exists cache. simpl. split; [reflexivity|split; [lia|exact Hgood]].
     - simpl levels_from.
       match goal with |- context [qstep ?o n] => set (own := o) end.
@@ -497,6 +507,7 @@ Section QuotientNoParams.
       + unfold qstep at 1. rewrite Hr.
         destruct (IH (cache ++ [r]) (n + 1)) as (tl & Htl & Hlen & Hall).
         * rewrite app_length. simpl. lia.
+        * lia.
         * intros m Hm. rewrite app_length in Hm. simpl in Hm.
           destruct (Nat.lt_ge_cases m (length cache)) as [Hlt|Hge].
           -- rewrite app_nth1 by exact Hlt. apply Hgood. exact Hlt.
@@ -505,15 +516,16 @@ Section QuotientNoParams.
         * exists tl. split; [exact Htl|]. split; [|exact Hall]. rewrite Hlen, app_length. simpl. lia.
   Qed.
 
-  Theorem quotient_nopar_correct N :
-    0 <= N ->
-    exists tl : list terms, levels qstep N = (tl, None) /\ length tl = Z.to_nat (N + 1) /\
+  Theorem quotient_nopar_correct :
+    0 <= Nmax ->
+    exists tl : list terms, levels qstep Nmax = (tl, None) /\ length tl = Z.to_nat (Nmax + 1) /\
       forall m, (m < length tl)%nat ->
         nokeys (nth m tl []) /\ tsum (nth m tl []) = tsum (tab_i (Z.of_nat m)).
   Proof.
     intros HN. unfold levels.
-    destruct (quotient_levels_from (Z.to_nat (N + 1)) [] 0) as (tl & H1 & H2 & H3).
+    destruct (quotient_levels_from (Z.to_nat (Nmax + 1)) [] 0) as (tl & H1 & H2 & H3).
     - reflexivity.
+    - lia.
     - intros m Hm. simpl in Hm. lia.
     - exists tl. split; [exact H1|]. split; [simpl in H2; exact H2|].
       intros m Hm. destruct (H3 m Hm) as (A & _ & B). split; assumption.
